@@ -133,6 +133,9 @@ class PoolDomain(AffineDomain):
 
     def assume(self, flow, s, cond, truth):
         c = strip(cond, casts=True)
+        cc_ = flow.canon(s, c)
+        if "peek_ikey" in cc_ or ".heap[1].isortkey" in cc_:
+            self.log["victim_conds"].add((cc_, self.m.rel(loc(cond))))
         if c["kind"] == "BinaryOperator" and c.get("opcode") in ("==", "!="):
             a, b = kids(c)
             ca, cb = flow.canon(s, a), flow.canon(s, b)
@@ -192,7 +195,7 @@ def analyse(m, f, extra_init=None):
     if extra_init:
         spec["init"].update(extra_init)
     return AF.analyse(m, f, spec, domain_cls=PoolDomain,
-                      extra_log={"recs": [], "region_ends": [], "notes": [], "enqueues": []})
+                      extra_log={"recs": [], "region_ends": [], "notes": [], "enqueues": [], "victim_conds": set()})
 
 
 def rules(rep, m):
@@ -389,7 +392,23 @@ def rules(rep, m):
     H = "&%s->holders" % acq.params[0]["name"]
     strict = re.search(r"\(%s\.heap\[1\]\.isortkey < cmb_process_current\(\)->priority\)" % re.escape(H[1:]), vc) or \
         re.search(r"\(cmi_hashheap_peek_ikey\(%s\) < cmb_process_current\(\)->priority\)" % re.escape(H), vc)
-    if not strict:
+    # flow-sensitive: on every path the priority compared is the caller's *current* priority, read in the same
+    # atomic region (a copy taken before a suspension is outdated: the priority may have been changed meanwhile)
+    for cc_, wh in sorted(logs["cmi_pool_acquire_inner"].get("victim_conds", ())):
+        r4.instance("victim test as evaluated on a path: %s" % cc_)
+        fresh = re.fullmatch(r"\((cmi_hashheap_peek_ikey\(%s\)|%s\.heap\[1\]\.isortkey) < cmb_process_current\(\)->priority\)"
+                             % (re.escape(H), re.escape(H[1:])), cc_)
+        if not fresh:
+            strict = None
+            rep.finding(r4, acq.name, "victim:stale-or-weak-test", "on some path victims are selected by '%s': the caller's "
+                        "priority must be its current one (read after the last suspension) and the comparison strict" % cc_,
+                        where=wh)
+            r4.fail()
+        else:
+            r4.ok()
+    if strict is None:
+        pass
+    elif not strict:
         rep.finding(r4, acq.name, "victim:test", "victims are selected by '%s', not by 'head priority < caller priority' "
                     "(strictly lower)" % vc, where=m.rel(loc(vloops[0])))
         r4.fail()
